@@ -82,6 +82,26 @@ func cmdC05(args []string) error {
 		// beyond the block-boundary range: long messages around powers of two
 		lens = append(lens, 131, 159, 160, 161, 255, 256, 257, 300, 511, 512, 513, 1000, 1023, 1024, 1025, 2048, 4099, 16384)
 	}
+	// one cell: two encryptions of plain under (key, u) and the decryption of the first
+	cell := func(et int32, e etype.EType, key, plain []byte, u uint32) {
+		line := map[string]interface{}{"ev": "enc", "et": et, "key": hx(key), "u": be32(u), "plain": hx(plain)}
+		var c1, c2, back []byte
+		var e1, e2, e3 error
+		p := catch(func() {
+			_, c1, e1 = e.EncryptMessage(key, append([]byte{}, plain...), u)
+			_, c2, e2 = e.EncryptMessage(key, append([]byte{}, plain...), u)
+			if e1 == nil {
+				back, e3 = e.DecryptMessage(key, append([]byte{}, c1...), u)
+			}
+		})
+		line["panic"] = p
+		line["encerr"] = e1 != nil || e2 != nil
+		line["cipher"] = hx(c1)
+		line["cipher2"] = hx(c2)
+		line["libok"] = p == "" && e1 == nil && e3 == nil
+		line["lib"] = hx(back)
+		tw.emit(line)
+	}
 	rot := int(*seed) % len(usageSet)
 	for _, et := range allEtypes {
 		e := mustEtype(et)
@@ -97,23 +117,33 @@ func cmdC05(args []string) error {
 				}
 				key := randKey(r, et)
 				plain := rbytes(r, n)
-				line := map[string]interface{}{"ev": "enc", "et": et, "key": hx(key), "u": be32(u), "plain": hx(plain)}
-				var c1, c2, back []byte
-				var e1, e2, e3 error
-				p := catch(func() {
-					_, c1, e1 = e.EncryptMessage(key, append([]byte{}, plain...), u)
-					_, c2, e2 = e.EncryptMessage(key, append([]byte{}, plain...), u)
-					if e1 == nil {
-						back, e3 = e.DecryptMessage(key, append([]byte{}, c1...), u)
-					}
-				})
-				line["panic"] = p
-				line["encerr"] = e1 != nil || e2 != nil
-				line["cipher"] = hx(c1)
-				line["cipher2"] = hx(c2)
-				line["libok"] = p == "" && e1 == nil && e3 == nil
-				line["lib"] = hx(back)
-				tw.emit(line)
+				cell(et, e, key, plain, u)
+			}
+		}
+	}
+	// ---- the same key bytes, usage and plaintext under every etype whose keys have that length, in both orders, the key held
+	// in one buffer that is overwritten for every round (encryption is a function of its arguments and the confounder: nothing
+	// the library remembers about an earlier call - for another etype, or for other bytes in the same slice - may change a later one)
+	rounds := 6
+	if *tier == "thorough" {
+		rounds = 60
+	}
+	for _, grp := range [][]int32{{17, 19, 23}, {18, 20}, {16}} {
+		buf := make([]byte, 0, 32)
+		for round := 0; round < rounds; round++ {
+			order := append([]int32{}, grp...)
+			if round%2 == 1 {
+				for i, j := 0, len(order)-1; i < j; i, j = i+1, j-1 {
+					order[i], order[j] = order[j], order[i]
+				}
+			}
+			buf = append(buf[:0], randKey(r, order[0])...)
+			u := usageSet[(rot+round/2)%len(usageSet)] // two rounds in a row share the usage: only the key bytes in the buffer change
+			plain := rbytes(r, []int{0, 1, 16, 33, 100, 7}[round%6])
+			for rep := 0; rep < 2; rep++ {
+				for _, et := range order {
+					cell(et, mustEtype(et), buf, plain, u)
+				}
 			}
 		}
 	}
